@@ -228,12 +228,16 @@ def shards(tier):
                                 fixed=dict(prog=prog, a0=a0, w0=0, w1=0), budget_s=240))
                 out.append(dict(name=f'sched1/prog={prog},a0={a0}', harness='sched1', fixed=dict(prog=prog, a0=a0), budget_s=120))
             else:
-                for w0 in range(NWHERE):
-                    out.append(dict(name=f'sched2/prog={prog},a0={a0},w0={w0}', harness='sched2',
-                                    fixed=dict(prog=prog, a0=a0, w0=w0), budget_s=1500))
-                for a1 in range(NACT):
-                    out.append(dict(name=f'sched3/prog={prog},a0={a0},a1={a1}', harness='sched3',
-                                    fixed=dict(prog=prog, a0=a0, a1=a1), budget_s=1500))
+                out.append(dict(name=f'sched2/prog={prog},a0={a0},gaps', harness='sched2',
+                                fixed=dict(prog=prog, a0=a0, w0=0, w1=0), budget_s=600))
+                if prog in (1, 2, 3, 8, 10):
+                    for w0 in range(1, NWHERE):
+                        out.append(dict(name=f'sched2/prog={prog},a0={a0},w0={w0}', harness='sched2',
+                                        fixed=dict(prog=prog, a0=a0, w0=w0), budget_s=1500))
+                if prog in (1, 2, 3):
+                    for a1 in range(NACT):
+                        out.append(dict(name=f'sched3/prog={prog},a0={a0},a1={a1}', harness='sched3',
+                                        fixed=dict(prog=prog, a0=a0, a1=a1), budget_s=1500))
     return out
 
 
@@ -241,7 +245,7 @@ BOUNDS = {
     'quick': dict(requests='K = 2 between loop callbacks; K = 1 issued from inside a listener notification (running/waiting/paused/played, occurrence 0..2)',
                   actions=[sched.ACT_NAMES[a] for a in ACTS], positions=f'gaps 0..{NPOS} + after termination', programs='P0..P10',
                   data='resume values int, kill/pause texts str len <= 2'),
-    'thorough': dict(requests='K = 2 with each request in a gap or in a listener notification; K = 3 in gaps',
+    'thorough': dict(requests='K = 2 in gaps (all programs); K = 2 with each request in a gap or in a listener notification (P1 P2 P3 P8 P10); K = 3 in gaps (P1 P2 P3)',
                      actions=[sched.ACT_NAMES[a] for a in ACTS], positions=f'gaps 0..{NPOS}', programs='P0..P10', data='int, str len <= 2 (<= 1 for K = 3)'),
 }
 OUTSIDE = ['hooks that raise (C03)', 'more than K requests', 'communicator-borne requests (C16)']
